@@ -6,6 +6,7 @@ import PV.Model.Bytes
 import PV.Proofs.BytesLemmas
 import PV.Proofs.C17Lemmas
 import PV.Proofs.SortLemmas
+import PV.Proofs.C17cLemmas
 
 namespace PV
 open PV.Bytes
@@ -172,5 +173,66 @@ theorem c17_sort_names_invariant (ll ll' : List String) (hp : ll'.Perm ll) (hlen
     (fun x hx y hy => hinj x ((c17_sort_names_perm ll' r' hr1').trans hp |>.subset hx)
       y ((c17_sort_names_perm ll' r' hr1').trans hp |>.subset hy))
 
+
+/-! ### `fit_t0`: which flow times enter the straight-line fit (PV/Model/FlowWindow.lean) -/
+
+section flow
+open PV.Flow
+
+/-- **C17 (fit window of `fit_t0`), all inputs.**  For every list of flow times, every zero-crossing position inside it and
+    every `fit_range`, the points handed to the straight-line fit are exactly the stored flow times with index in
+    `[zc - fit_range, zc + fit_range)`, cut off at the first and at the last flow time - a contiguous stretch, in file order. -/
+theorem c17_fit_window {α : Type} (l : List α) (zc fr : Nat) (hz : zc ≤ l.length) :
+    pySlice l (max ((zc : Int) - fr) 0) ((zc : Int) + fr) = (l.drop (zc - fr)).take (min (zc + fr) l.length - (zc - fr)) :=
+  window_clipped l zc fr hz
+
+/-- **C17 (the window brackets the root).**  Whenever the crossing lies inside the data (1 ≤ zc < n) and `fit_range ≥ 1`, the
+    last non-positive point `l[zc-1]` and the first positive point `l[zc]` are both in the window, whatever `fit_range`. -/
+theorem c17_fit_window_brackets {α : Type} (l : List α) (zc fr : Nat) (h1 : 1 ≤ zc) (h2 : zc < l.length) (hf : 1 ≤ fr) :
+    l[zc - 1]'(by omega) ∈ pySlice l (max ((zc : Int) - fr) 0) ((zc : Int) + fr) ∧
+    l[zc]'h2 ∈ pySlice l (max ((zc : Int) - fr) 0) ((zc : Int) + fr) := by
+  rw [c17_fit_window l zc fr (by omega)]
+  constructor
+  · rw [List.mem_iff_getElem]
+    refine ⟨zc - 1 - (zc - fr), ?_, ?_⟩
+    · simp only [List.length_take, List.length_drop]; omega
+    · simp only [List.getElem_take, List.getElem_drop]
+      congr 1; omega
+  · rw [List.mem_iff_getElem]
+    refine ⟨zc - (zc - fr), ?_, ?_⟩
+    · simp only [List.length_take, List.length_drop]; omega
+    · simp only [List.getElem_take, List.getElem_drop]
+      congr 1; omega
+
+/-- the historical defect (fixed in /repo 1964c79), as a statement about Python's slice: with 8 flow times, the crossing at
+    index 2 and `fit_range = 5` the unclipped start -3 is read from the end and the fit gets the points 5 and 6, which do not
+    bracket the root; the clipped window gets the points 0..6 -/
+theorem c17_unclipped_window_witness :
+    fitWindowUnclipped [0, 1, 2, 3, 4, 5, 6, 7] [false, false, true, true, true, true, true, true] 5 = some [5, 6] ∧
+    fitWindow [0, 1, 2, 3, 4, 5, 6, 7] [false, false, true, true, true, true, true, true] 5 = some [0, 1, 2, 3, 4, 5, 6] := by
+  decide
+
+/-- a data set that is positive from the first flow time on (or nowhere) is refused -/
+theorem c17_fit_window_refused {α : Type} (l : List α) (mask : List Bool) (fr : Nat)
+    (h : mask.all (fun b => !b) = true ∨ mask.head? = some true) : fitWindow l mask fr = none := by
+  unfold fitWindow
+  have : argmaxTrue mask = 0 := by
+    unfold argmaxTrue
+    rcases h with h | h
+    · have hk : mask.findIdx id = mask.length := by
+        rw [List.findIdx_eq_length]
+        intro x hx
+        have := List.all_eq_true.mp h x hx
+        simpa using this
+      simp [hk]
+    · cases mask with
+      | nil => simp at h
+      | cons b t =>
+        simp only [List.head?_cons, Option.some.injEq] at h
+        subst h
+        simp [List.findIdx_cons]
+  simp [this]
+
+end flow
 
 end PV
